@@ -61,6 +61,10 @@ CHECKS = {
             "symbolic TLA+ state machine Jose.tla (TLC: accept-iff-untampered invariants, 3 named deviations) + TLC-enumerated RFC 7518 matrix replayed with real keys and single-bit flips into https/jose",
             "TLC checks on a perfect-cryptography term model that verification/decryption succeeds exactly when no carried field was changed and the key is the same, for every algorithm/serialization/tamper class, and enumerates the whole matrix; every enumerated object is signed/encrypted, serialized, bit-flipped per field (every bit for 1-byte payloads in thorough), parsed and opened by the real library and compared with the model's verdict; JWS signatures are also checked by an independent stdlib verifier; JWK round trip, fixed-width coordinates (leading-zero keys) and the RFC 7638 thumbprint are checked against spec tables",
             "cryptography uninterpreted in the model; evidence for bit flips is the flips actually tried; trusts Go stdlib crypto, TLC and the RFC table transcription; symmetric JWE-side wrong-primitive deviations not visible; oct thumbprints and acme unexported functions not judged", "5/C16"),
+    "C17": ("model_checking",
+            "TLA+ character-class lexer spec JsonPlus.tla (TLC: strip / pass-through invariants under every read segmentation, named deviation) + TLC-enumerated and TLC-simulated documents replayed into json.Unmarshal / NewJsonPlusReader with encoding/json on the undecorated text as oracle",
+            "TLC checks exhaustively that the reference stripper delivers exactly the comment-free text for every small structurally generated document under every segmentation, that the library's apostrophe regions are harmless on valid documents, and that the pre-fix end-of-string rule violates the invariant; every document of the families (all string bodies of <= 4/5 atoms, all comment bodies of <= 4/5 characters, combinations, gaps, skeletons, tokens up to 100 KB / 2 MB) and random long documents with spec-chosen reads are replayed into the real reader in two concretisations and 4-5 segmentations",
+            "trusts TLC, the class abstraction (several representatives per class, not all of Unicode) and encoding/json as the standard decoder; segmentations of the real code are sampled; comments stand only between tokens", "5/C17"),
     "C19": ("model_checking",
             "TLA+ spec HttpApi.tla (request -> handler decision table -> client verdict) checked by TLC with six named deviations; TLC-enumerated table replayed into the real handlers (ResponseRecorder) and ApiRequest over a loopback server",
             "for every row of the answer table (kinds x codes incl. negatives and 64-bit extremes x statuses x value classes incl. unmarshalable x callback forms) the real handlers through every public entry point produce the response the specification predicts, and the client half never confuses success and failure",
